@@ -66,7 +66,8 @@ func (e *Exec) inlineFunc(callee *FuncInfo, call *ast.CallExpr, st *State, ctx *
 	}
 	ord := e.callOrd[call]
 	if ord == "" {
-		ord = callee.Name + "#?"
+		e.numberCalls(ctx.frame.declOf(), e.info(ctx))
+		ord = e.callOrd[call]
 	}
 	fr := &frame{fi: callee, loopKey: ctx.frame.loopKey + ord + "/", contract: callee.Contract, info: cinfo, loopOrd: numberLoops(callee.Decl)}
 	for i := 0; i < sig.Results().Len(); i++ {
@@ -417,11 +418,19 @@ func (e *Exec) applyContract(callee *FuncInfo, call *ast.CallExpr, st *State, ct
 		args = append(args, v)
 	}
 	c := callee.Contract
-	e.siteN["call:"+callee.Name]++
-	site := fmt.Sprintf("call[%s#%d]", callee.Name, e.siteN["call:"+callee.Name])
+	site := e.siteOf(call, callee, ctx)
 	heapBefore := map[string]string{}
 	for k, v := range st.heap {
 		heapBefore[k] = v
+	}
+	if mc := e.fi.Contract; mc != nil {
+		if sp, ok := mc.Loops["@"+strings.TrimSuffix(strings.TrimPrefix(site, "call["), "]")]; ok {
+			for i, a := range sp.Invariants {
+				goal := e.clause(a.X, st, nil, call.Pos(), info, clauseInv)
+				e.emit(st, "assert", fmt.Sprintf("%s.assert[%d]", site, i+1), goal, a.Tags, call.Pos(), a.Src)
+				st.assume(goal)
+			}
+		}
 	}
 	if c != nil {
 		for i, r := range c.Requires {
@@ -430,7 +439,7 @@ func (e *Exec) applyContract(callee *FuncInfo, call *ast.CallExpr, st *State, ct
 		}
 		// termination: calls inside a recursive component must decrease the caller's measure
 		if e.sweep && e.fi.Contract != nil && e.w.sameSCC(e.fi, callee) {
-			e.termOb(callee, names, st, call, heapBefore)
+			e.termOb(callee, names, st, call, heapBefore, site)
 		}
 	} else if e.sweep && e.w.sameSCC(e.fi, callee) {
 		e.emit(st, "term", fmt.Sprintf("%s.decreases", site), "false", []string{"C08"}, call.Pos(), "recursive call without a measure (callee has no contract)")
@@ -496,9 +505,24 @@ func (e *Exec) applyContract(callee *FuncInfo, call *ast.CallExpr, st *State, ct
 }
 
 // termOb emits the obligation that a recursive call decreases the measure.
-func (e *Exec) termOb(callee *FuncInfo, names map[string]string, st *State, call *ast.CallExpr, heapBefore map[string]string) {
+// siteOf names a call site structurally: callee name and its ordinal among the calls to that callee in the enclosing
+// function's source (prefixed by the inlining chain for calls inside an inlined body).
+func (e *Exec) siteOf(call *ast.CallExpr, callee *FuncInfo, ctx *Ctx) string {
+	ord := e.callOrd[call]
+	if ord == "" {
+		if d := ctx.frame.declOf(); d != nil {
+			e.numberCalls(d, e.info(ctx))
+		}
+		ord = e.callOrd[call]
+	}
+	if ord == "" {
+		ord = callee.Name + "#0"
+	}
+	return "call[" + ctx.frame.loopKey + ord + "]"
+}
+
+func (e *Exec) termOb(callee *FuncInfo, names map[string]string, st *State, call *ast.CallExpr, heapBefore map[string]string, site string) {
 	cc, mc := callee.Contract, e.fi.Contract
-	site := fmt.Sprintf("call[%s#%d]", callee.Name, e.siteN["call:"+callee.Name])
 	if len(mc.Decr) == 0 || len(cc.Decr) == 0 {
 		if e.sweep {
 			e.emit(st, "term", site+".decreases", "false", []string{"C08"}, call.Pos(), "recursive call but no decreases clause on "+e.fi.Name+" or "+callee.Name)
